@@ -20,7 +20,8 @@ head=subprocess.run(['git','-C','/repo','log','--format=%h','-1'],capture_output
 flavour={4:" and, in round 4, for changes that are hard to find: interactions between two features and easily forgotten dimensions of the property's quantifier",
          5:" and, in round 5, for faults of accumulation over long histories, dependence on the device configuration, commands arriving while something else is in progress and unusual-but-legal argument values (the kinds of change seen in earlier rounds were named as ones to avoid)",
          6:" and, in round 6, for a narrow change in shared or peripheral code",
-         7:" and, in round 7 (one change per agent), for two cooperating sites that each look fine alone, faults that need a particular multi-step sequence (second use of a resource after a full cycle, a command arriving in the callback in which something else finishes), faults that need a particular alignment (a tween ending exactly at a chunk end, a loop end equal to the data length, a ring-buffer wrap, a tick on the last frame of a callback) and faults at a particular fault point (capacity exhausted, decoder error at a particular moment, a resource removed while another refers to it)"}
+         7:" and, in round 7 (one change per agent), for two cooperating sites that each look fine alone, faults that need a particular multi-step sequence (second use of a resource after a full cycle, a command arriving in the callback in which something else finishes), faults that need a particular alignment (a tween ending exactly at a chunk end, a loop end equal to the data length, a ring-buffer wrap, a tick on the last frame of a callback) and faults at a particular fault point (capacity exhausted, decoder error at a particular moment, a resource removed while another refers to it)",
+         8:" and, in round 8 (one change per agent), for changes a randomised API tester would very probably not hit: a combination of two or three features that are each common but rarely used together, or a specific second-order situation (the same command twice, a command restoring the value a tween is leaving, the last free slot, the exact frame on which something ends, a handle dropped while its command is unread, a re-used id)"}
 rows=[]; bad=[]
 tag='r%d'%rnd
 for name in sorted(os.listdir('/verif/seeded')):
@@ -52,7 +53,7 @@ for name in sorted(os.listdir('/verif/seeded')):
     short=' '.join((change or '').replace('**Change**','').replace('|','/').split())[:190]
     cw=meta['checked_with']
     rows.append("| %s | %s | %s | %s |"%(name,short,('yes' if cw['caught_by_own_check'] else 'NO')+(' (missed at first)' if cw['missed_at_first'] else ''),(cw['first_violation'] or '')[:130].replace('|','/')))
-names=sorted(n for n in os.listdir('/verif/seeded') if os.path.isdir('/verif/seeded/'+n))
+names=sorted(n for n in os.listdir('/verif/seeded') if os.path.isdir('/verif/seeded/'+n) and n.startswith('C'))
 open('/verif/seeded/RESULTS.tsv','w').write('\n'.join('\t'.join(res[n]) if n in res else n+'\t(no result)' for n in names)+'\n')
 print('\n'.join(rows))
 print('SEEDS',len(names),'UNCONFIRMED',bad,file=sys.stderr)
